@@ -58,7 +58,7 @@ def run_case(case):
     a, b = hr.doc.snapshot(), d2.snapshot()
     structural, cells = eqv.cells_diff(a, b)
     if structural and all(e[1] == 'row ids' and summary_groupby_record_valued(hr.doc, e[0]) for e in structural):
-      out.fail('C07:reload:summary-groupby-record-valued', 'summary rows differ after reload', structural[:3])
+      out.fail('C07:reload:summary-groupby-object-valued', 'summary rows differ after reload', structural[:3])
       return True
     real = [x for x in cells if not is_cycle_error_pair(x[3], x[4])]
     if real or calc.stored or structural:
